@@ -104,6 +104,12 @@ class KernelDomain(IndexDomain):
         if dotted == 'numpy.outer' and len(args) == 2 and all(isinstance(a, Vec) for a in args):
             a, b = args
             return Mat(it.binop(ast.Mult(), a.elem, b.elem, node), a.idx, b.idx, a.n, b.n)
+        if dotted == 'numpy.square' and len(args) == 1 and isinstance(args[0], (Vec, Mat, PieceVec)):
+            return self._map(args[0], lambda e: it.binop(ast.Mult(), e, e, node))
+        if dotted in ('numpy.multiply', 'numpy.add', 'numpy.subtract', 'numpy.divide', 'numpy.true_divide') and len(args) == 2 and not kwargs \
+                and any(isinstance(a, (Vec, Mat, PieceVec)) for a in args):
+            op = {'multiply': ast.Mult, 'add': ast.Add, 'subtract': ast.Sub, 'divide': ast.Div, 'true_divide': ast.Div}[last]()
+            return it.binop(op, args[0], args[1], node)
         if dotted == 'numpy.exp' and args and isinstance(args[0], (Vec, Mat, PieceVec)):
             v = args[0]
             it.emit('exp', arg=v, node=node)
